@@ -171,6 +171,25 @@ func (r *Run) TooManyViolations() bool { r.mu.Lock(); defer r.mu.Unlock(); retur
 // Violation records a failing case. Known findings are matched on (oracle, key).
 func (r *Run) Violation(v Violation) {
 	v.Property = r.ID
+	if v.Oracle == "panic" || v.Oracle == "register-panic" {
+		// sub-classify panics by their message so that different crashes get their own replays
+		first := v.Note
+		if i := strings.IndexByte(first, '\n'); i >= 0 {
+			first = first[:i]
+		}
+		var site string
+		for _, l := range strings.Split(v.Note, "\n") {
+			if strings.Contains(l, "/repo/larking/") {
+				site = l[strings.Index(l, "/repo/larking/")+len("/repo/larking/"):]
+				if j := strings.IndexByte(site, ' '); j >= 0 {
+					site = site[:j]
+				}
+				break
+			}
+		}
+		v.Oracle += "[" + site + "]"
+		_ = first
+	}
 	r.mu.Lock()
 	defer r.mu.Unlock()
 	for _, k := range r.known {
